@@ -21,8 +21,8 @@ import (
 
 var (
 	HangDeadline = 20 * time.Second
-	HangCPU      = 25 * time.Second
-	HangWall     = 240 * time.Second
+	HangCPU      = 120 * time.Second
+	HangWall     = 600 * time.Second
 )
 
 var (
